@@ -6,10 +6,76 @@ from kv import Case, xn, xb, xl, xlist, xbool, xopt, xparse
 
 ID = "C06"
 MODULE = "C06"
-IMPORTS = "Bytes RustInt Range Negotiate NegotiateProofs"
+IMPORTS = "Bytes RustInt Range Negotiate NegotiateProofs ListHeaderProofs"
 PROFILES = ("dev", "nochk")
 KERNEL_SAMPLE = 30
-THEOREMS = []  # filled in below (THEOREMS_PINNED)
+SV = "forall (parse_q : bytes -> option qclass) (parse_mime : bytes -> option mime) (enc : alg -> N -> bytes -> bytes)"
+THEOREMS = [
+    ("chosen_is_listed", SV + r""" (c : cresp) (ae : option bytes) (o : options) (l : option bytes) (b : bytes) (ch : coding) (c' : cresp),
+       clone_preferred parse_q parse_mime enc c ae o = (Sent l b ch, c') ->
+       ch = Identity \/ (exists (a : alg) (h : bytes) (q : qclass), ch = Alg a /\ ae = Some h /\ to_str_ok h = true /\
+                         In (alg_name a, q) (list_header parse_q h) /\ q <> QZero)"""),
+    ("never_refused", SV + r""" (c : cresp) (ae : option bytes) (o : options) (l : option bytes) (b : bytes) (a : alg) (c' : cresp),
+       clone_preferred parse_q parse_mime enc c ae o = (Sent l b (Alg a), c') ->
+       ~ (forall q : qclass, In (alg_name a, q) (header_values parse_q ae) -> q = QZero)"""),
+    ("identity_refusal_honoured", SV + r""" (c : cresp) (ae : option bytes) (o : options) (r : reply) (c' : cresp),
+       cr_compress c = true -> In (s_identity, QZero) (header_values parse_q ae) ->
+       clone_preferred parse_q parse_mime enc c ae o = (r, c') -> forall (l : option bytes) (b : bytes), r <> Sent l b Identity"""),
+    ("floors", SV + r""" (body : bytes) (ct : option bytes) (compress : bool) (ae : option bytes) (o : options),
+       (length body < 50)%nat \/ compress = false ->
+       clone_preferred parse_q parse_mime enc (cresp_new body ct compress) ae o =
+       (Sent (match body with [] => None | _ => Some s_identity end) body Identity, cresp_new body ct compress)"""),
+    ("floors_content_type", SV + r""" (c : cresp) (ae : option bytes) (o : options) (r : reply) (c' : cresp),
+       compressible parse_mime c = false -> clone_preferred parse_q parse_mime enc c ae o = (r, c') ->
+       c' = c /\ (r = NotAcceptable \/
+                  r = Sent (match cr_body c with [] => None | _ => Some s_identity end) (cr_body c) Identity)"""),
+    ("label_matches_body", SV + r""" (c : cresp) (ae : option bytes) (o : options) (l : option bytes) (b : bytes) (ch : coding) (c' : cresp),
+       cells_ok enc c -> clone_preferred parse_q parse_mime enc c ae o = (Sent l b ch, c') ->
+       l = match b with [] => None | _ => Some (coding_name ch) end /\
+       match ch with
+       | Identity => b = cr_body c /\ c' = c
+       | Alg a => (exists level, b = enc a level (cr_body c)) /\ cell_get a c' = Some b
+       end /\
+       cells_ok enc c' /\ cr_body c' = cr_body c /\ cr_compress c' = cr_compress c /\ cr_ctype c' = cr_ctype c"""),
+    ("memoised_bytes_reused", r"""forall (enc : alg -> N -> bytes -> bytes) (a : alg) (level : N) (c : cresp) (b : bytes),
+       cell_get a c = Some b -> get_alg enc a level c = (b, c)"""),
+    ("lossless_partial", SV + r""" (dec : alg -> bytes -> bytes),
+       (forall a level b, dec a (enc a level b) = b) -> (forall a level b, enc a level b <> []) ->
+       forall pg reqs,
+         Forall (fun r => r = NotAcceptable \/
+                          exists l b ch, r = Sent l b ch /\ decode_label dec l b = Some (pg_body pg))
+                (serve parse_q parse_mime enc pg None reqs)"""),
+    ("not_acceptable_iff", SV + r""" (c : cresp) (ae : option bytes) (o : options),
+       fst (clone_preferred parse_q parse_mime enc c ae o) = NotAcceptable <->
+       cr_compress c = true /\ In (s_identity, QZero) (header_values parse_q ae) /\
+       (compressible parse_mime c = false \/ forall a, contains (header_values parse_q ae) (alg_name a) = false)"""),
+    ("preference_order", r"""forall p cz cb cg,
+       pick p cz cb cg =
+       match p with
+       | PZstd => if cz then Some Zstd else if cb then Some Br else if cg then Some Gzip else None
+       | PBr => if cb then Some Br else if cz then Some Zstd else if cg then Some Gzip else None
+       | PGzip => if cg then Some Gzip else if cz then Some Zstd else if cb then Some Br else None
+       | PNone => if cz then Some Zstd else if cb then Some Br else if cg then Some Gzip else None
+       end"""),
+    ("list_header_wf", r"""forall parse_q : bytes -> option qclass,
+       (forall s c, parse_q s <> None -> In c s -> numberish c = true) ->
+       forall ms, ms <> [] -> forallb member_ok ms = true ->
+       list_header parse_q (members_text ms) = map (member_ref parse_q) ms"""),
+    ("list_header_total", r"""forall (parse_q : bytes -> option qclass) (h : bytes),
+       exists l, list_header parse_q h = l /\ (length l <= S (commas h))%nat"""),
+    ("memo_invariant", r"""forall (P : bytes -> Prop) (vals : list bytes) (n : nat) (cell : option bytes) (sched : list nat),
+       (forall i, (i < n)%nat -> P (nth i vals [])) -> (forall b, cell = Some b -> P b) ->
+       let st := mrun vals (minit cell n) sched in
+       (forall b, m_cell st = Some b -> P b) /\
+       (forall i r, nth_error (m_pcs st) i = Some (PDone r) -> exists b, r = Ok b /\ P b)"""),
+    ("memo_write_once", r"""forall vals sched st b, m_cell st = Some b -> m_cell (mrun vals st sched) = Some b"""),
+    ("memo_completes", r"""forall vals cell n sched,
+       (forall i, (i < n)%nat -> (4 <= count_occ Nat.eq_dec sched i)%nat) ->
+       forallb pc_done (m_pcs (mrun vals (minit cell n) sched)) = true"""),
+    ("list_header_ows_v0_refuted", r"""exists ms, ms <> [] /\ forallb member_ok ms = true /\
+       list_header_gen parse_q_dec false (members_text ms) <> map (member_ref parse_q_dec) ms /\
+       In (B "gzip", QOne) (list_header_gen parse_q_dec false (members_text ms))"""),
+]
 
 # ------------------------------------------------------------------------------------------
 # reference readings, independent of the Coq model
@@ -432,9 +498,54 @@ def describe(c):
     return d
 
 
-RULE = "TODO"
-ASSUMPTIONS = []
-TRUSTED = []
-LEVEL_TEXT = "TODO"
-LEVEL_NOTE = "TODO"
-TECHNIQUE = "TODO"
+RULE = ("(a) neg.pipe: the real kvarn::handle_cache, in process, on one page per case: body in {0, 1, 49, 50, 51 bytes, 300 bytes of text, 4 KiB zeros, "
+        "4 KiB pseudo-random; thorough: + 64 KiB, 1 MiB zeros, 1 MiB pseudo-random} x 46 content types (every branch of do_compress, unparsable, "
+        "non-ASCII) x handler opt-out x cached / one-shot option sets x the four preferred algorithms (independently for both sets) x 1-4 requests "
+        "(single, or n = 2..64 concurrent ones joined on one thread) with Accept-Encoding from the RFC 7231 grammar (codings, q in {0, 0.0, 0.000, 0., "
+        "0.5, 0.001, 0.999, 1, 1.0, 1.000, .5, 1e-46 written out, ...}, OWS, duplicates, unknown codings, *), mutated / random garbage, non-ASCII "
+        "bytes, none.  The harness decodes every reply body with the standard decoder of the algorithm named in content-encoding (flate2 MultiGzDecoder, "
+        "brotli BrotliDecompress, zstd decode_all) and reports status, label, complete-stream, decoded == identity body (also == CacheReply.identity_body), "
+        "length, bytes == identity bytes, bytes == bytes of the first reply with this label; the extracted model predicts the same tuple (its encoders are "
+        "stand-ins: only label / status / equalities are compared).  (b) neg.list_header: kvarn_utils::parse::list_header directly, dev and nochk profiles, "
+        "on grammar, mutated and random UTF-8 text, compared with the byte-level model (qualities by class: == 0.0, == 1.0, other).  (c) neg.mime: "
+        "Mime::from_str + comprash::do_compress vs the model's stand-in parser and do_compress.  Spec oracles independent of the model (extra_oracle): "
+        "every 200 reply decodes as a complete stream to exactly the identity body; its label is identity / absent(empty body) or a coding listed with "
+        "non-zero quality per a reference reading of Accept-Encoding (split on ',', strip OWS, weight after ';'); bodies < 50 bytes, opted-out handlers and "
+        "content types marked not compressible in a hand-written table are sent as identity; 406 only if identity is refused per the reference reading; "
+        "repeated replies with one label carry the same bytes; list_header on a grammar header equals the reference parse.  "
+        "distinct_nontrivial = distinct (input, model outcome) with a compressed label or a 406 (pipe), a zero / other quality (list_header), any (mime)")
+ASSUMPTIONS = [
+    "encoders (flate2 GzEncoder, brotli CompressorWriter, zstd Encoder) are a Section variable; lossless_partial assumes a decoder inverts them and "
+    "that their output is non-empty; this is validated on every run by the standard decoders on the bytes kvarn sends, not proved (DEFLATE / Brotli / "
+    "Zstandard have no Gallina model here)",
+    "f32::from_str and Mime::from_str are Section variables in every theorem; the correspondence run instantiates them with stand-ins exact on plain "
+    "decimals (digits with at most one '.', compared exactly against the binary32 rounding thresholds) and on 'type/subtype[+suffix][; charset=utf-8]'; "
+    "list members ending in a signed / exponent / inf / nan form and a sniffed (absent) content type on a non-empty body are out of domain and counted",
+    "memo cell: sequentially consistent interleavings only; the unsynchronised UnsafeCell write is a data race in Rust's memory model and nothing is "
+    "claimed about it; the run exercises the interleavings that n futures joined on one thread produce (all check, all compute, first writes)",
+    "the handler sets no content-encoding of its own; check_content_type only appends a charset parameter (type / subtype unchanged); GET, status 200, "
+    "no vary rules; admission to the response cache is C04's subject (here: ServerCachePreference::Full => cached, None => not cached)",
+    "list_header_wf: names made only of number characters (0-9 . + - e E and the letters of inf / nan / infinity) are excluded, a member without weight "
+    "is given the f32 value of the text in front of it (Accept-Encoding: 0 yields quality 0.0 for the coding '0'); no registered coding has such a name",
+    "not interpreted by the code and stated as such (examples star_is_not_interpreted, floor_beats_refusal): '*' (also '*;q=0'), case-insensitive coding "
+    "names, and identity;q=0 on bodies under the floor / opted-out handlers (RFC 7231 5.3.4 lets a server answer without content-coding there)",
+]
+TRUSTED = ["modelled: utils/src/parse.rs list_header (+ trim_ows); src/comprash.rs do_compress, CompressionOptions, CompressedResponse::{new (floor), "
+           "clone_preferred, clone_identity_set_compression, get_gzip/get_br/get_zstd}; src/lib.rs handle_cache 406 mapping and the cached / one-shot "
+           "option choice; http::HeaderValue::to_str as visible-ASCII-or-TAB",
+           "standard decoders in the harness: flate2 1.x MultiGzDecoder, brotli 7 BrotliDecompress, zstd 0.13 decode_all (harness/src/c00pipe.rs decode_body)"]
+LEVEL_TEXT = ("Coq theorems about a byte-level model of list_header and a transcription of clone_preferred, for every header value, body, content type, "
+              "option set and (memo cell) every interleaving: chosen coding is identity or listed with quality != 0.0 (chosen_is_listed, never_refused); "
+              "identity;q=0 is honoured past the floor (identity_refusal_honoured); < 50 bytes / opt-out / uncompressible content type => identity "
+              "(floors, floors_content_type); the label names exactly the encoder whose output is sent and the memo cell keeps it (label_matches_body, "
+              "memoised_bytes_reused); 406 <=> identity refused and nothing else applies (not_acceptable_iff); preferred-then-zstd-br-gzip order "
+              "(preference_order); list_header = reference parse on the RFC 7231 grammar with OWS (list_header_wf) and total with at most commas+1 values "
+              "(list_header_total); memo cell invariant, write-once and completion under all SC interleavings of n tasks (memo_invariant, memo_write_once, "
+              "memo_completes).  PARTIAL: lossless_partial (every reply of every history decodes to the identity body) is relative to the hypothesis that a "
+              "decoder inverts the encoder; that hypothesis is validated, not proved, by decoding every reply of the run with the standard decoders.  "
+              "list_header_ows_v0_refuted: the grammar header on which kvarn 0.6.3's list_header was not the reference parse (repaired by fix: 2e4402a).")
+LEVEL_NOTE = ("Trusted: Coq kernel; extraction (sample re-checked in-kernel); hand transcription of the anchored code validated by the differential run on "
+              "handle_cache / list_header / do_compress; the three decoder crates as the definition of 'standard decoder'; SC memory for the memo cell. "
+              "No axioms. Encoder losslessness: validated per run, not proved.")
+TECHNIQUE = ("Coq proof (state-machine invariant for list_header, case analysis of clone_preferred, inductive invariant over all schedules for the memo "
+             "cell) + differential correspondence on kvarn::handle_cache with standard decoders as spec oracle")
